@@ -66,6 +66,13 @@ def check(ctx):
     d4_steps(ctx, idx)
 
 
+def solver_rules(r, idx):
+    """D2 + D3 + D4 under one rule object (used by C05.D7.SOLVER / C07.D7.SOLVER): pins the solver to the reviewed reference."""
+    init_body(r, idx)
+    results_body(r, idx)
+    steps_mod.check_steps(r, idx)
+
+
 def d4_steps(ctx, idx):
     r = ctx.rule('D4.STEPS', 'each step of the solver equals the textbook Hungarian step (per-cell effect tables, '
                  'full sweeps, no skipped adjustment)', floor=36)
@@ -370,107 +377,111 @@ def d2_init(ctx, idx):
     r = ctx.rule('D2.INIT', 'every per-solve field is assigned in compute() from the current argument on every path '
                  'to the step loop', floor=11)
     with r:
-        ci, methods = _methods(idx)
-        comp, table, steps = _step_table(idx)
-        selfn = comp.params[0]
-        cfg = cfg_of(comp.node)
-        # the dispatch loop: the while statement that subscripts the step table
-        tname = None
-        st = cm.enclosing_stmt(table)
-        if isinstance(st, ast.Assign) and len(st.targets) == 1 and isinstance(st.targets[0], ast.Name):
-            tname = st.targets[0].id
-        loops = [w for w in walk_own(comp.node) if isinstance(w, ast.While) and any(
-            isinstance(s, ast.Subscript) and (cm.is_name(s.value, tname) or s.value is table) for s in ast.walk(w))]
-        if len(loops) != 1:
-            raise AnalysisError('Munkres.compute: cannot find the dispatch loop over the step table')
-        loop_nodes = cfg.nodes_of(loops[0])
-        reach = _reachable_methods(list(steps.values()), methods)
-        needed = {}
-        for m in reach:
-            for f, node in _fields_read(methods[m], methods).items():
-                needed.setdefault(f, 'Munkres.%s' % m)
-        # fields read by compute itself outside the initialising assignments (result extraction)
-        init_stmts = [s for s in walk_own(comp.node) if isinstance(s, ast.Assign)
-                      and any(cm.is_self_attr(t, selfn) for t in s.targets)]
-        in_init = {id(n) for s in init_stmts for n in ast.walk(s)}
-        own_reads = [n for n in walk_own(comp.node) if cm.is_self_attr(n, selfn) and isinstance(n.ctx, ast.Load)
-                     and n.attr not in methods and id(n) not in in_init]
-        for n in own_reads:
-            needed.setdefault(n.attr, 'Munkres.compute (result loop)')
-        if len(needed) < 8:
-            raise AnalysisError('only %d per-solve fields found; the step methods are no longer recognised' % len(needed))
+        init_body(r, idx)
 
-        def inits(field):
-            out = []
-            for node in cfg.stmt_nodes(lambda s: isinstance(s, ast.Assign)):
-                if any(cm.is_self_attr(t, selfn, field) for t in node.ast.targets):
-                    out.append(node)
-            return out
 
-        all_fields = set(needed)
-        for s in walk_own(comp.node):
-            if isinstance(s, ast.Assign):
-                for t in s.targets:
-                    if cm.is_self_attr(t, selfn):
-                        all_fields.add(t.attr)
-        init = idx.func(cm.MUNKRES + '.__init__') if idx.has_func(cm.MUNKRES + '.__init__') else None
-        for f in sorted(needed):
-            construct = 'Munkres.compute: self.%s' % f
-            nodes = inits(f)
-            flow, ftext = _flow_initialised(methods, steps, reach, f, selfn)
-            if flow and (not nodes or not cfg.dominates(nodes, loop_nodes)):
-                r.ok(construct, 'not (unconditionally) assigned in compute(), but %s' % ftext, comp.loc)
-                continue
-            if flow is None and (not nodes or not cfg.dominates(nodes, loop_nodes)):
-                r.undecided(construct, ftext, comp.loc)
-                continue
-            if not nodes:
-                r.violation(construct, 'self.%s is read by %s but compute() never assigns it: on a reused solver the value '
-                            'left by the previous solve is used (and on a new one the constructor default)' % (f, needed[f]),
-                            comp.loc, expected='self.%s = ... before the step loop' % f)
-                continue
-            if not cfg.dominates(nodes, loop_nodes):
-                w = cfg.witness_path([cfg.entry], nodes, loop_nodes)
-                r.violation(construct, 'a path reaches the step loop without assigning self.%s (`%s` is not executed on every '
-                            'path before the loop): %s reads the value of the previous solve' % (
-                                f, short(nodes[0].ast, 50), needed[f]), lib.loc(comp, nodes[0].ast),
-                            expected='assignment dominating the step loop')
-                continue
-            late = [n for n in own_reads if n.attr == f and not cfg.dominates(nodes, cfg.nodes_containing(n))]
-            if late:
-                r.violation(construct, 'compute() reads self.%s in `%s` on a path where it has not been assigned in this call'
-                            % (f, short(cm.enclosing_stmt(late[0]), 50)), lib.loc(comp, late[0]))
-                continue
-            bad = False
-            for node in nodes:
-                val = node.ast.value
-                # fields read by the initialiser (directly or through self-method calls)
-                reads = {}
-                for n in ast.walk(val):
-                    if cm.is_self_attr(n, selfn) and isinstance(n.ctx, ast.Load):
-                        if n.attr in methods:
-                            for m in _reachable_methods([n.attr], methods):
-                                for g, gn in _fields_read(methods[m], methods).items():
-                                    reads.setdefault(g, 'through self.%s()' % n.attr)
-                        else:
-                            reads.setdefault(n.attr, 'directly')
-                for g, how in sorted(reads.items()):
-                    doms = [x for x in inits(g) if x is not node]
-                    if not doms or not cfg.dominates(doms, [node]):
-                        bad = True
-                        r.violation(construct, 'the new value `%s` reads self.%s (%s) before compute() has assigned it in this '
-                                    'call: the field is initialised from the previous solve, not from the current argument'
-                                    % (short(val, 60), g, how), lib.loc(comp, node.ast),
-                                    expected='self.%s assigned earlier in compute()' % g)
-            if not bad:
-                r.ok(construct, 'assigned before the step loop on every path from values of this call only (read by %s)' % needed[f],
-                     lib.loc(comp, nodes[0].ast))
-        # the working matrix derives from the argument
-        cn = inits('C')
-        if cn:
-            val = cn[0].ast.value
-            r.check('cost_matrix' in lib.names_in(val), 'Munkres.compute: self.C source', 'built from cost_matrix',
-                    'the working matrix `%s` is not built from the argument cost_matrix' % short(val), lib.loc(comp, cn[0].ast))
+def init_body(r, idx):
+    ci, methods = _methods(idx)
+    comp, table, steps = _step_table(idx)
+    selfn = comp.params[0]
+    cfg = cfg_of(comp.node)
+    # the dispatch loop: the while statement that subscripts the step table
+    tname = None
+    st = cm.enclosing_stmt(table)
+    if isinstance(st, ast.Assign) and len(st.targets) == 1 and isinstance(st.targets[0], ast.Name):
+        tname = st.targets[0].id
+    loops = [w for w in walk_own(comp.node) if isinstance(w, ast.While) and any(
+        isinstance(s, ast.Subscript) and (cm.is_name(s.value, tname) or s.value is table) for s in ast.walk(w))]
+    if len(loops) != 1:
+        raise AnalysisError('Munkres.compute: cannot find the dispatch loop over the step table')
+    loop_nodes = cfg.nodes_of(loops[0])
+    reach = _reachable_methods(list(steps.values()), methods)
+    needed = {}
+    for m in reach:
+        for f, node in _fields_read(methods[m], methods).items():
+            needed.setdefault(f, 'Munkres.%s' % m)
+    # fields read by compute itself outside the initialising assignments (result extraction)
+    init_stmts = [s for s in walk_own(comp.node) if isinstance(s, ast.Assign)
+                  and any(cm.is_self_attr(t, selfn) for t in s.targets)]
+    in_init = {id(n) for s in init_stmts for n in ast.walk(s)}
+    own_reads = [n for n in walk_own(comp.node) if cm.is_self_attr(n, selfn) and isinstance(n.ctx, ast.Load)
+                 and n.attr not in methods and id(n) not in in_init]
+    for n in own_reads:
+        needed.setdefault(n.attr, 'Munkres.compute (result loop)')
+    if len(needed) < 8:
+        raise AnalysisError('only %d per-solve fields found; the step methods are no longer recognised' % len(needed))
+    
+    def inits(field):
+        out = []
+        for node in cfg.stmt_nodes(lambda s: isinstance(s, ast.Assign)):
+            if any(cm.is_self_attr(t, selfn, field) for t in node.ast.targets):
+                out.append(node)
+        return out
+    
+    all_fields = set(needed)
+    for s in walk_own(comp.node):
+        if isinstance(s, ast.Assign):
+            for t in s.targets:
+                if cm.is_self_attr(t, selfn):
+                    all_fields.add(t.attr)
+    init = idx.func(cm.MUNKRES + '.__init__') if idx.has_func(cm.MUNKRES + '.__init__') else None
+    for f in sorted(needed):
+        construct = 'Munkres.compute: self.%s' % f
+        nodes = inits(f)
+        flow, ftext = _flow_initialised(methods, steps, reach, f, selfn)
+        if flow and (not nodes or not cfg.dominates(nodes, loop_nodes)):
+            r.ok(construct, 'not (unconditionally) assigned in compute(), but %s' % ftext, comp.loc)
+            continue
+        if flow is None and (not nodes or not cfg.dominates(nodes, loop_nodes)):
+            r.undecided(construct, ftext, comp.loc)
+            continue
+        if not nodes:
+            r.violation(construct, 'self.%s is read by %s but compute() never assigns it: on a reused solver the value '
+                        'left by the previous solve is used (and on a new one the constructor default)' % (f, needed[f]),
+                        comp.loc, expected='self.%s = ... before the step loop' % f)
+            continue
+        if not cfg.dominates(nodes, loop_nodes):
+            w = cfg.witness_path([cfg.entry], nodes, loop_nodes)
+            r.violation(construct, 'a path reaches the step loop without assigning self.%s (`%s` is not executed on every '
+                        'path before the loop): %s reads the value of the previous solve' % (
+                            f, short(nodes[0].ast, 50), needed[f]), lib.loc(comp, nodes[0].ast),
+                        expected='assignment dominating the step loop')
+            continue
+        late = [n for n in own_reads if n.attr == f and not cfg.dominates(nodes, cfg.nodes_containing(n))]
+        if late:
+            r.violation(construct, 'compute() reads self.%s in `%s` on a path where it has not been assigned in this call'
+                        % (f, short(cm.enclosing_stmt(late[0]), 50)), lib.loc(comp, late[0]))
+            continue
+        bad = False
+        for node in nodes:
+            val = node.ast.value
+            # fields read by the initialiser (directly or through self-method calls)
+            reads = {}
+            for n in ast.walk(val):
+                if cm.is_self_attr(n, selfn) and isinstance(n.ctx, ast.Load):
+                    if n.attr in methods:
+                        for m in _reachable_methods([n.attr], methods):
+                            for g, gn in _fields_read(methods[m], methods).items():
+                                reads.setdefault(g, 'through self.%s()' % n.attr)
+                    else:
+                        reads.setdefault(n.attr, 'directly')
+            for g, how in sorted(reads.items()):
+                doms = [x for x in inits(g) if x is not node]
+                if not doms or not cfg.dominates(doms, [node]):
+                    bad = True
+                    r.violation(construct, 'the new value `%s` reads self.%s (%s) before compute() has assigned it in this '
+                                'call: the field is initialised from the previous solve, not from the current argument'
+                                % (short(val, 60), g, how), lib.loc(comp, node.ast),
+                                expected='self.%s assigned earlier in compute()' % g)
+        if not bad:
+            r.ok(construct, 'assigned before the step loop on every path from values of this call only (read by %s)' % needed[f],
+                 lib.loc(comp, nodes[0].ast))
+    # the working matrix derives from the argument
+    cn = inits('C')
+    if cn:
+        val = cn[0].ast.value
+        r.check('cost_matrix' in lib.names_in(val), 'Munkres.compute: self.C source', 'built from cost_matrix',
+                'the working matrix `%s` is not built from the argument cost_matrix' % short(val), lib.loc(comp, cn[0].ast))
 
 
 # ------------------------------------------------------------------------------- D3
@@ -478,88 +489,92 @@ def d3_results(ctx, idx):
     r = ctx.rule('D3.RESULT', 'pairs are read inside the original rows/columns where marked == 1; padding value is a '
                  'small finite number; the step table is exhaustive and follows the Munkres flow chart', floor=25)
     with r:
-        ex = cm.extraction_facts(idx)
-        comp, selfn = ex.fi, ex.selfn
-        # bounds
-        want = {ex.row_idx.id: ('original_length', 'rows', 'len(cost_matrix)'),
-                ex.col_idx.id: ('original_width', 'columns', 'len(cost_matrix[0])')}
-        for var, (field, what, src) in want.items():
-            construct = 'Munkres.compute: result loop over %s' % what
-            loop = ex.loops.get(var)
-            if loop is None:
-                r.undecided(construct, 'index %s of marked[..] is not a for-loop variable' % var, lib.loc(comp, ex.test))
-                continue
-            it = loop.iter
-            where = lib.loc(comp, loop)
-            if cm.is_call_to(it, 'range', 1):
-                b = it.args[0]
-                other = 'original_width' if field == 'original_length' else 'original_length'
-                if cm.is_self_attr(b, selfn, field):
-                    r.ok(construct, 'range(self.%s)' % field, where)
-                elif cm.is_self_attr(b, selfn, 'n') or (cm.is_call_to(b, 'len', 1) and cm.is_self_attr(b.args[0], selfn) and b.args[0].attr in ('C', 'marked')):
-                    r.violation(construct, 'the loop runs over the padded size `%s`: for a rectangular matrix pairs that lie in the '
-                                'padding are returned (more than min(rows, columns) pairs; the caller indexes its own matrix out of '
-                                'range)' % short(b), where, expected='range(self.%s)' % field, found=short(it))
-                elif cm.is_self_attr(b, selfn, other):
-                    r.violation(construct, '%s are bounded by the number of %s (self.%s): for a rectangular matrix pairs are lost or '
-                                'lie outside the matrix' % (what, 'columns' if what == 'rows' else 'rows', other), where,
-                                expected='range(self.%s)' % field, found=short(it))
-                else:
-                    r.verdict(construct, nf.classify('range(%s.%s)' % (selfn, field), it), where, expected='range(self.%s)' % field)
+        results_body(r, idx)
+
+
+def results_body(r, idx):
+    ex = cm.extraction_facts(idx)
+    comp, selfn = ex.fi, ex.selfn
+    # bounds
+    want = {ex.row_idx.id: ('original_length', 'rows', 'len(cost_matrix)'),
+            ex.col_idx.id: ('original_width', 'columns', 'len(cost_matrix[0])')}
+    for var, (field, what, src) in want.items():
+        construct = 'Munkres.compute: result loop over %s' % what
+        loop = ex.loops.get(var)
+        if loop is None:
+            r.undecided(construct, 'index %s of marked[..] is not a for-loop variable' % var, lib.loc(comp, ex.test))
+            continue
+        it = loop.iter
+        where = lib.loc(comp, loop)
+        if cm.is_call_to(it, 'range', 1):
+            b = it.args[0]
+            other = 'original_width' if field == 'original_length' else 'original_length'
+            if cm.is_self_attr(b, selfn, field):
+                r.ok(construct, 'range(self.%s)' % field, where)
+            elif cm.is_self_attr(b, selfn, 'n') or (cm.is_call_to(b, 'len', 1) and cm.is_self_attr(b.args[0], selfn) and b.args[0].attr in ('C', 'marked')):
+                r.violation(construct, 'the loop runs over the padded size `%s`: for a rectangular matrix pairs that lie in the '
+                            'padding are returned (more than min(rows, columns) pairs; the caller indexes its own matrix out of '
+                            'range)' % short(b), where, expected='range(self.%s)' % field, found=short(it))
+            elif cm.is_self_attr(b, selfn, other):
+                r.violation(construct, '%s are bounded by the number of %s (self.%s): for a rectangular matrix pairs are lost or '
+                            'lie outside the matrix' % (what, 'columns' if what == 'rows' else 'rows', other), where,
+                            expected='range(self.%s)' % field, found=short(it))
             else:
                 r.verdict(construct, nf.classify('range(%s.%s)' % (selfn, field), it), where, expected='range(self.%s)' % field)
-            # the bound field itself
-            vals = [s for s in walk_own(comp.node) if isinstance(s, ast.Assign) and any(cm.is_self_attr(t, selfn, field) for t in s.targets)]
-            if len(vals) == 1:
-                pats = {'original_length': 'len(cost_matrix)', 'original_width': 'len(cost_matrix[0])'}
-                alt = {'original_length': 'len(cost_matrix[0])', 'original_width': 'len(cost_matrix)'}
-                v = vals[0].value
-                c2 = 'Munkres.compute: self.%s' % field
-                if nf.match(pats[field], v) is not None:
-                    r.ok(c2, src, lib.loc(comp, vals[0]))
-                elif nf.match(alt[field], v) is not None:
-                    r.violation(c2, 'number of %s taken from `%s`: rows and columns of the argument are confused' % (what, short(v)),
-                                lib.loc(comp, vals[0]), expected=pats[field], found=short(v))
-                elif any(cm.is_self_attr(n, selfn, 'n') or cm.is_self_attr(n, selfn, 'C') for n in ast.walk(v)):
-                    r.violation(c2, 'taken from the padded matrix (`%s`) instead of the argument' % short(v), lib.loc(comp, vals[0]),
-                                expected=pats[field], found=short(v))
-                else:
-                    r.verdict(c2, nf.classify(pats[field], v), lib.loc(comp, vals[0]), expected=pats[field])
-            elif vals:
-                r.undecided('Munkres.compute: self.%s' % field, 'assigned %d times' % len(vals), comp.loc)
-        # star test
-        t = nf.canon(ex.test)
-        res = nf.classify('%s.marked[_I][_J] == 1' % selfn, ex.test)
-        r.verdict('Munkres.compute: star test', res, lib.loc(comp, ex.test), ok_detail='marked[i][j] == 1 (starred zero)',
-                  expected='self.marked[i][j] == 1')
-        others = [g for g in cm.guards_of(ex.emit_stmt, stop=comp.node) if not nf.equal(g, t)]
-        if others:
-            r.undecided('Munkres.compute: star test', 'pairs are emitted under extra conditions: %s' % '; '.join(short(g) for g in others),
-                        lib.loc(comp, ex.emit_stmt))
-        # emitted pair
-        a, b = ex.pair.elts
-        construct = 'Munkres.compute: emitted pair'
-        if a.id == ex.row_idx.id and b.id == ex.col_idx.id:
-            r.ok(construct, '(row, column)', lib.loc(comp, ex.pair))
-        elif a.id == ex.col_idx.id and b.id == ex.row_idx.id:
-            r.violation(construct, 'pairs are emitted as (column, row): callers index their matrix with the roles exchanged',
-                        lib.loc(comp, ex.pair), expected='(%s, %s)' % (ex.row_idx.id, ex.col_idx.id), found=unparse(ex.pair))
         else:
-            r.undecided(construct, 'pair `%s` is not made of the two loop indices' % unparse(ex.pair), lib.loc(comp, ex.pair))
-        for ret in ex.returns:
-            r.check(cm.is_name(ret.value, ex.sink), 'Munkres.compute: return', 'returns the collected pairs',
-                    'compute returns `%s`, not the list the pairs are collected in (%s)' % (short(ret.value), ex.sink), lib.loc(comp, ret))
-        if ex.emit_kind is None:
-            r.undecided(construct, 'pairs collected by unrecognised `%s`' % short(ex.emit_stmt), lib.loc(comp, ex.emit_stmt))
-        for lp in ex.nest:
-            ex_ = lib.loop_has_early_exit(lp)
-            r.check(not ex_, 'Munkres.compute: result loop `for %s`' % lp.target.id, 'visits every index',
-                    'the result loop is left early (%s): starred zeros after that point are not reported'
-                    % (short(ex_[0]) if ex_ else ''), lib.loc(comp, lp))
-        # padding value
-        _pad_value(r, idx, comp, selfn)
-        # step table
-        _step_flow(r, idx)
+            r.verdict(construct, nf.classify('range(%s.%s)' % (selfn, field), it), where, expected='range(self.%s)' % field)
+        # the bound field itself
+        vals = [s for s in walk_own(comp.node) if isinstance(s, ast.Assign) and any(cm.is_self_attr(t, selfn, field) for t in s.targets)]
+        if len(vals) == 1:
+            pats = {'original_length': 'len(cost_matrix)', 'original_width': 'len(cost_matrix[0])'}
+            alt = {'original_length': 'len(cost_matrix[0])', 'original_width': 'len(cost_matrix)'}
+            v = vals[0].value
+            c2 = 'Munkres.compute: self.%s' % field
+            if nf.match(pats[field], v) is not None:
+                r.ok(c2, src, lib.loc(comp, vals[0]))
+            elif nf.match(alt[field], v) is not None:
+                r.violation(c2, 'number of %s taken from `%s`: rows and columns of the argument are confused' % (what, short(v)),
+                            lib.loc(comp, vals[0]), expected=pats[field], found=short(v))
+            elif any(cm.is_self_attr(n, selfn, 'n') or cm.is_self_attr(n, selfn, 'C') for n in ast.walk(v)):
+                r.violation(c2, 'taken from the padded matrix (`%s`) instead of the argument' % short(v), lib.loc(comp, vals[0]),
+                            expected=pats[field], found=short(v))
+            else:
+                r.verdict(c2, nf.classify(pats[field], v), lib.loc(comp, vals[0]), expected=pats[field])
+        elif vals:
+            r.undecided('Munkres.compute: self.%s' % field, 'assigned %d times' % len(vals), comp.loc)
+    # star test
+    t = nf.canon(ex.test)
+    res = nf.classify('%s.marked[_I][_J] == 1' % selfn, ex.test)
+    r.verdict('Munkres.compute: star test', res, lib.loc(comp, ex.test), ok_detail='marked[i][j] == 1 (starred zero)',
+              expected='self.marked[i][j] == 1')
+    others = [g for g in cm.guards_of(ex.emit_stmt, stop=comp.node) if not nf.equal(g, t)]
+    if others:
+        r.undecided('Munkres.compute: star test', 'pairs are emitted under extra conditions: %s' % '; '.join(short(g) for g in others),
+                    lib.loc(comp, ex.emit_stmt))
+    # emitted pair
+    a, b = ex.pair.elts
+    construct = 'Munkres.compute: emitted pair'
+    if a.id == ex.row_idx.id and b.id == ex.col_idx.id:
+        r.ok(construct, '(row, column)', lib.loc(comp, ex.pair))
+    elif a.id == ex.col_idx.id and b.id == ex.row_idx.id:
+        r.violation(construct, 'pairs are emitted as (column, row): callers index their matrix with the roles exchanged',
+                    lib.loc(comp, ex.pair), expected='(%s, %s)' % (ex.row_idx.id, ex.col_idx.id), found=unparse(ex.pair))
+    else:
+        r.undecided(construct, 'pair `%s` is not made of the two loop indices' % unparse(ex.pair), lib.loc(comp, ex.pair))
+    for ret in ex.returns:
+        r.check(cm.is_name(ret.value, ex.sink), 'Munkres.compute: return', 'returns the collected pairs',
+                'compute returns `%s`, not the list the pairs are collected in (%s)' % (short(ret.value), ex.sink), lib.loc(comp, ret))
+    if ex.emit_kind is None:
+        r.undecided(construct, 'pairs collected by unrecognised `%s`' % short(ex.emit_stmt), lib.loc(comp, ex.emit_stmt))
+    for lp in ex.nest:
+        ex_ = lib.loop_has_early_exit(lp)
+        r.check(not ex_, 'Munkres.compute: result loop `for %s`' % lp.target.id, 'visits every index',
+                'the result loop is left early (%s): starred zeros after that point are not reported'
+                % (short(ex_[0]) if ex_ else ''), lib.loc(comp, lp))
+    # padding value
+    _pad_value(r, idx, comp, selfn)
+    # step table
+    _step_flow(r, idx)
 
 
 def _pad_value(r, idx, comp, selfn):
